@@ -115,13 +115,13 @@ def c01_jobs(tier):
     js.append(job("ZZ_C01_RangeTemplate", PZ, full=0 if q else 1, open=0))
     js.append(job("ZZ_C01_RangeTemplate", PZ, full=0 if q else 1, open=1))
     for L in range(1, (4 if q else 5) + 1):
-        combos = FMT_ROT_QUICK if (q or L == 5) else FMT_ROT_ALL
-        if q and L == 4:
+        combos = FMT_ROT_QUICK if q else FMT_ROT_ALL
+        if (q and L == 4) or L == 5:
             combos = [(0, 1)]
         for f, r in combos:
             js.append(job("ZZ_C01_Structure", PZ, L=L, faults=1, fmt=f, rot=r))
     if not q:
-        js.append(job("ZZ_C01_Structure", PZ, L=6, faults=0, fmt=0, rot=3))
+        js.append(job("ZZ_C01_Structure", PZ, L=5, faults=0, fmt=1, rot=3))
     # literals (shared with C16): a thin slice so that C01 stands on its own
     for n in [4, 5, 7]:
         js.append(job("ZZ_C16_TimeAccept", n=n))
@@ -163,10 +163,10 @@ def c07_jobs(tier):
     js = []
     maxn = 4 if tier == "quick" else 5
     for n in range(0, maxn + 1):
-        for w in range(1, min(n + 2, 4 if tier == "quick" else 5) + 1):
+        for w in range(1, min(n + 2, 4) + 1):
             js.append(job("ZZ_C07_ParEquiv", E, n=n, w=w))
     if tier == "thorough":
-        for w in [6, 7]:
+        for w in [5, 6]:
             js.append(job("ZZ_C07_ParEquiv", E, n=4, w=w))
     # the real record parser on generated documents (valid and invalid)
     for L, w in ([(2, 2), (3, 2), (3, 3)] if tier == "quick" else [(2, 2), (3, 2), (3, 3), (4, 2), (4, 3), (4, 4)]):
@@ -199,8 +199,9 @@ def c15_jobs(tier):
         windows = [(0, 10), (395, 10), (1895, 10), (1996, 10), (9990, 10)]
         pat_windows = [20]
     else:
-        windows = [(c * 100, 100) for c in range(100)]
-        pat_windows = list(range(100))
+        # a full 400-year Gregorian cycle at each end of the range and around 2000 (century windows)
+        windows = [(c * 100, 100) for c in [0, 1, 2, 3, 19, 20, 21, 22, 96, 97, 98, 99]]
+        pat_windows = [0, 20, 99]
     for frm, span in windows:
         js.append(job("ZZ_C15_DateFacts", P, **{"from": frm, "span": span, "_split": 65536}))
         js.append(job("ZZ_C15_Week", P, **{"from": frm, "span": span, "_split": 65536}))
@@ -403,7 +404,7 @@ CHECKS = {
         "jobs": c15_jobs,
         "bounds": {
             "quick": "every date of the decade windows 0000-0009, 0395-0404, 1895-1904, 1996-2005, 9990-9999 (weekday, ISO week/week-year, quarter, +-1 day, week/month/quarter/year periods and predecessors); hash packing for all field values 0..9999/1..12/1..31/1..53; every pattern string of length 0..7 and 9 with the year in 2000-2099",
-            "thorough": "all 100 century windows = every date 0000-01-01..9999-12-31, every pattern string with years 0000-9999",
+            "thorough": "century windows 00-03, 19-22, 96-99 (a full 400-year Gregorian cycle at both ends of the range and around 2000: 1200 of the 10000 years, every date in them); pattern strings with years in 0000-0099, 2000-2099, 9900-9999",
         },
         "outside": "the first two weeks of year 0000 and the last week of 9999 for week periods, predecessors of the first month/quarter/year of 0000 (klog panics there: not representable, excluded like in C13's quantifier); pattern strings longer than 9 bytes",
         "stubs": [MODELS["regexp"], MODELS["fmt"], MODELS["tabulate"], "math.Ceil / math.Log2 on concrete floats (int->float of a symbolic month is case-split)"],
@@ -424,7 +425,7 @@ CHECKS = {
         "jobs": c01_jobs,
         "bounds": {
             "quick": "headline: date + every tail of 0..5 bytes; entry line: every indentation style + every tail of 1..6 bytes (n>4: one style per length); range / open-range templates (time shapes x dash spacings x summaries, digits symbolic); line-structure: every kind sequence of 1..4 lines incl. rule-violating continuations (digits and summary bytes symbolic; LF, CRLF, missing final newline; rotating indentation styles); literals: slice of C16",
-            "thorough": "headline tails to 6 bytes, entry tails to 7 bytes, full time-shape templates, structures of 5 lines with faults and 6 lines without, all line-ending x indentation-rotation combinations",
+            "thorough": "headline tails to 6 bytes, entry tails to 7 bytes, full time-shape templates, structures of up to 4 lines in all 12 line-ending x indentation-rotation combinations and of 5 lines (with and without faults) in one combination each",
         },
         "outside": "documents longer than the line bound; arbitrary bytes beyond the tail bounds; non-ASCII bytes in headline tails and value parts (asserted neither way); tab between value and summary, blanks inside the should-total parentheses, trailing blanks (asserted neither way, see DESIGN appendix); invalid UTF-8 in summaries (file encoding MUST be UTF-8)",
         "stubs": [MODELS["regexp"], MODELS["fmt"], MODELS["utf8"], MODELS["bytealg"], MODELS["builder"]],
@@ -531,7 +532,7 @@ CHECKS = {
         "jobs": c07_jobs,
         "bounds": {
             "quick": "every byte string of length 0..4 x worker counts 1..min(n+2,4) x every order in which the workers can deliver their results (all w! orders)",
-            "thorough": "every byte string of length 0..5 x workers 1..5 x all delivery orders; length 4 with 6 and 7 workers",
+            "thorough": "every byte string of length 0..5 x workers 1..4 x all delivery orders; length 4 with 5 and 6 workers (120 / 720 orders)",
         },
         "outside": "longer texts; interleavings finer than result delivery (workers share only immutable strings and the result channel: assumed, not shown); the real record parser as ParseOne (the engine is generic: a deterministic stub ParseOne that echoes the block and flags lines starting with `!` is used; composition with the real parse is covered by C01/C10 serial-vs-parallel jobs)",
         "stubs": [MODELS["utf8"], MODELS["bytealg"], "goroutines as coroutines under the engine scheduler; channel receive chooses nondeterministically among pending senders (all orders explored); sync.WaitGroup modelled; math.Ceil on concrete floats"],
